@@ -177,7 +177,11 @@ Definition bind (x : name) (e : expr) (c : cx) : option cx :=
   match assoc x (cx_v c) with Some _ => None | None => Some (mkcx ((x, e) :: cx_v c) (cx_b c)) end.
 Definition bind_b (x : name) (b : bexp) (c : cx) : cx := mkcx (cx_v c) ((x, b) :: cx_b c).
 
-(* flags carried next to the result: (off the proved path, a Break was re-emitted outside its loop) *)
+(* flags carried next to the result.  fst: "outside the proved class": the code before one of the repairs on
+   the path that repair changed, or the pass left a dead construct whose operands may name statements it has
+   dropped: (i) a loop with loop variables that is kept although its optimised body ends in a Break,
+   (ii) an if-else with final assignments one of whose optimised branches ends in a Break.
+   snd: a Break was re-emitted outside of its loop (only before fix 6cdc437). *)
 Definition fl := (bool * bool)%type.
 Definition fl0 : fl := (false, false).
 Definition orf (a b : fl) : fl := (fst a || fst b, snd a || snd b).
@@ -226,29 +230,27 @@ Fixpoint bind_inits (ts : list triple) (c : cx) : option cx :=
   | t :: r => match bind (t_name t) (t_e1 t) c with Some c' => bind_inits r c' | None => None end
   end.
 
-(* try_optimize_loop_for_some_iterations; `depth` = max_depth.  `g = true` is the code as it is now (after
-   fix 6cdc437: the first iteration replaces the loop only if the rest of the body has no break of this loop,
-   `contains_break_of_this_loop` = negb no_break_l); `g = false` is the code before that repair.  The returned flag is "proved path" only
-   for the exit that returns the loop unchanged at the first attempt. *)
-Fixpoint try_loop (g : ver) (stmts : list stmt -> cx -> option R) (depth : nat) (first : bool)
+(* try_optimize_loop_for_some_iterations; `depth` = max_depth.  `contains_break_of_this_loop` is
+   negb no_break_l (the guard of fix 6cdc437, see `ver`). *)
+Fixpoint try_loop (g : ver) (stmts : list stmt -> cx -> option R) (depth : nat)
          (lvs : list triple) (body : list stmt) (bc : option name) (c : cx) : option R :=
   match bind_inits lvs c with
   | None => None
   | Some c1 =>
       match stmts body c1 with
       | None => None
-      | Some (out, c2, _, _) =>
+      | Some (out, c2, _, ff) =>
           match split_last out with
           | Some (rest, last) =>
               if negb (is_break last) || (v_guard g && negb (no_break_l rest))
-              then Some ([SWhile lvs body bc], c, false, if first then fl0 else fl_unproved)
+              then Some ([SWhile lvs body bc], c, false, fl0)
               else
                 match last with
                 | SBreak v =>
-                    let r := (rest, c, false, (true, negb (no_break_l rest))) in
+                    let r := (rest, c, false, orf ff (negb (v_guard g), negb (no_break_l rest))) in
                     match bc with
                     | Some b => match bind b (opt_expr (cx_v c) v) c with
-                                | Some c' => Some (rest, c', false, (true, negb (no_break_l rest)))
+                                | Some c' => Some (rest, c', false, orf ff (negb (v_guard g), negb (no_break_l rest)))
                                 | None => None
                                 end
                     | None => Some r
@@ -258,8 +260,11 @@ Fixpoint try_loop (g : ver) (stmts : list stmt -> cx -> option R) (depth : nat) 
           | None =>
               let adv := map (fun t => (t_name t, opt_expr (cx_v c2) (t_e2 t), t_e2 t)) lvs in
               match depth with
-              | O => Some ([SWhile adv body bc], c, false, fl_unproved)
-              | S d => try_loop g stmts d false adv body bc c
+              | O => Some ([SWhile adv body bc], c, false, ff)
+              | S d => match try_loop g stmts d adv body bc c with
+                       | Some (o, c', b, f) => Some (o, c', b, orf ff f)
+                       | None => None
+                       end
               end
           end
       end
@@ -431,7 +436,9 @@ Fixpoint ccp_stmt (g : ver) (n : nat) (st : stmt) (c : cx) {struct n} : option R
                         | None => None
                         | Some (fas', c') =>
                             Some (if is_nil o1 && is_nil o2 && is_nil fas' then [] else [SIf cond o1 o2 fas'],
-                                  c', false, orf f1 f2)
+                                  c', false,
+                                  orf (orf f1 f2)
+                                      (if (ends_break o1 || ends_break o2) && negb (is_nil fas) then fl_unproved else fl0))
                         end
                     end
                 end
@@ -472,7 +479,7 @@ Fixpoint ccp_stmt (g : ver) (n : nat) (st : stmt) (c : cx) {struct n} : option R
                         match stmts rest c2 with
                         | None => None
                         | Some (out, c3, _, f2) =>
-                            let f := orf (orf f0 (orf f1 f2)) (true, negb (no_break_l out)) in
+                            let f := orf (orf f0 (orf f1 f2)) (negb (v_guard g), negb (no_break_l out)) in
                             match bc with
                             | Some b => match bind b (opt_expr (cx_v c3) e) c3 with
                                         | Some c4 => Some (out, c4, false, f)
@@ -483,9 +490,11 @@ Fixpoint ccp_stmt (g : ver) (n : nat) (st : stmt) (c : cx) {struct n} : option R
                         end
                     end
                 | None =>
-                    match try_loop g stmts 5 true lvs' body bc c1 with
+                    match try_loop g stmts 5 lvs' body bc c1 with
                     | None => None
-                    | Some (out, c2, b, f2) => Some (out, c2, b, orf (orf f0 f1) f2)
+                    | Some (out, c2, b, f2) =>
+                        Some (out, c2, b, orf (orf (orf f0 f1) f2)
+                                              (if ends_break body && negb (is_nil lvs') then fl_unproved else fl0))
                     end
                 end
             end
